@@ -224,6 +224,12 @@ def check(run, replay=None):
     nets = 40 if thorough else 8
     for k in range(nets):
         spec = netgen.gen_spec(rng, feat={"leaks": 0.0, "valves": 0.8, "pumps": 0.7, "cv": 0.6, "rules": 0.1, "pdd": 0.3})
+        if k == nets - 1:
+            # the last network is fed by ONE reservoir through ONE pipe (no tanks, pumps, valves): its reversed twin (below) is then on a bridge
+            spec = netgen.gen_spec(random.Random(run.seed * 4241 + 1), feat={"leaks": 0.0, "valves": 0.0, "pumps": 0.0, "cv": 0.0, "rules": 0.0, "pdd": 0.0, "tanks": 0.0,
+                                                                              "closed": 0.0, "time_controls": 0.0, "level_controls": 0.0, "pressure_controls": 0.0})
+            spec["reservoirs"] = spec["reservoirs"][:1]
+            spec["pipes"] = [p_ for p_ in spec["pipes"] if p_["start"] not in ("R2",) and p_["end"] not in ("R2",)]
         if k % 2 == 0:
             # directed: a short, wide check-valve bypass in parallel with an ordinary pipe, pointing against the flow
             p0 = rng.choice(spec["pipes"])
